@@ -101,6 +101,8 @@ pub fn child_main(args: &Args) -> i32 {
     let tolerant = args.flag("tolerant");
     crate::hooks::install();
     crate::hooks::set_counting(false);
+    crate::hooks::MARK_DRAWN.store(true, std::sync::atomic::Ordering::SeqCst);
+    crate::hooks::DRAWN_DELAY_US.store(args.u64("drawn-delay-us", 0), std::sync::atomic::Ordering::SeqCst);
     fjall::verif::set_journal_pos_scale(args.u64("scale", 1));
     let r = catch_unwind(AssertUnwindSafe(|| -> Result<(), String> {
         write_mark("O begin\n");
@@ -206,6 +208,11 @@ struct Run {
 
 #[allow(clippy::too_many_arguments)]
 fn run_child(seed: u64, threads: usize, n: usize, workers: usize, scale: u64, memtable: u64, tolerant: bool, fail: Option<&str>) -> Result<Run, Deviation> {
+    run_child2(seed, threads, n, workers, scale, memtable, tolerant, fail, 0)
+}
+
+#[allow(clippy::too_many_arguments)]
+fn run_child2(seed: u64, threads: usize, n: usize, workers: usize, scale: u64, memtable: u64, tolerant: bool, fail: Option<&str>, drawn_delay_us: u64) -> Result<Run, Deviation> {
     let shim = std::env::var("FJV_SHIM").unwrap_or_else(|_| "/verif/shim/libfjshim.so".to_string());
     if !Path::new(&shim).exists() {
         return Err(Deviation::new("inconclusive:no-shim", format!("{shim} not built")));
@@ -230,7 +237,9 @@ fn run_child(seed: u64, threads: usize, n: usize, workers: usize, scale: u64, me
         .arg("--scale")
         .arg(scale.to_string())
         .arg("--memtable")
-        .arg(memtable.to_string());
+        .arg(memtable.to_string())
+        .arg("--drawn-delay-us")
+        .arg(drawn_delay_us.to_string());
     if tolerant {
         cmd.arg("--tolerant");
     }
@@ -434,7 +443,7 @@ fn fault_case(seed: u64, idx: u64, thorough: bool, stats: &mut Counts) -> Result
     let n_syncs = dry.recs.iter().filter(|r| (r.kind == K_FSYNC || r.kind == K_FDATASYNC) && is_journal(&r.p1)).count();
     let states = thread_states(cseed, threads, n);
     let ops: Vec<Vec<MtOp>> = (0..threads).map(|t| thread_ops(cseed, t, n)).collect();
-    let cap = if thorough { 60 } else { 12 };
+    let cap = if thorough { 60 } else { 16 };
     let mut worker = Worker::spawn();
     let mut done = 0;
     for _ in 0..cap {
@@ -448,10 +457,11 @@ fn fault_case(seed: u64, idx: u64, thorough: bool, stats: &mut Counts) -> Result
                 if rng.chance(1, 2) { "once" } else { "sticky" }
             )
         };
-        let run = run_child(cseed, threads, n, workers, scale, 4_096, true, Some(&spec))?;
+        let delay = *rng.pick(&[0u64, 0, 150, 600]);
+        let run = run_child2(cseed, threads, n, workers, scale, 4_096, true, Some(&spec), delay)?;
         let r = (|| -> Result<(), Deviation> {
             stats.inc("mt.fault_executions");
-            let what = format!("[{desc}] FJSHIM_FAIL={spec}");
+            let what = format!("[{desc}] FJSHIM_FAIL={spec} lock_hold_delay_us={delay}");
             if run.status == Some(4) {
                 return Err(Deviation::new("fault:panic", format!("{what}: {}", run.stdout.chars().take(300).collect::<String>())));
             }
@@ -461,6 +471,8 @@ fn fault_case(seed: u64, idx: u64, thorough: bool, stats: &mut Counts) -> Result
             let mut tid_thread: BTreeMap<u32, usize> = BTreeMap::new();
             let mut in_flight: BTreeMap<usize, usize> = BTreeMap::new();
             let mut fault_hits: Vec<(usize, Option<(usize, usize)>)> = Vec::new();
+            // (trace index, op in flight) of every entry into a journal critical section past the poison check
+            let mut drawn_at: Vec<(usize, (usize, usize))> = Vec::new();
             let mut opened = false;
             for (k, rec) in run.recs.iter().enumerate() {
                 if rec.kind == K_MARK {
@@ -483,6 +495,11 @@ fn fault_case(seed: u64, idx: u64, thorough: bool, stats: &mut Counts) -> Result
                         Some("O") => {
                             if it.next() == Some("ok") {
                                 opened = true;
+                            }
+                        }
+                        Some("H") => {
+                            if let Some(op) = tid_thread.get(&rec.tid).and_then(|t| in_flight.get(t).map(|i| (*t, *i))) {
+                                drawn_at.push((k, op));
                             }
                         }
                         _ => {}
@@ -509,6 +526,27 @@ fn fault_case(seed: u64, idx: u64, thorough: bool, stats: &mut Counts) -> Result
                         ));
                     }
                 }
+            }
+            // fail-stop at the lock: a client's failing journal call poisons the database before it releases the
+            // journal lock, so no operation that enters its journal critical section (seqno drawn, i.e. past the
+            // poison check) after a fault fired inside a client operation may be acknowledged - even if its call
+            // had started (and was waiting for the lock) before the failure
+            if let Some((fk, Some(fop))) = fault_hits.iter().find(|(_, op)| op.is_some()).copied() {
+                for (dk, op) in &drawn_at {
+                    if *dk > fk && *op != fop {
+                        stats.inc("mt.critical_sections_after_fault");
+                        if let Some((_, true)) = res.get(op) {
+                            return Err(Deviation::new(
+                                "fault:write-acknowledged-after-failure",
+                                format!(
+                                    "{what}: operation {} of client {} drew its seqno (trace record {dk}) after the injected error had fired inside operation {} of client {} (record {fk}) and was acknowledged",
+                                    op.1, op.0, fop.1, fop.0
+                                ),
+                            ));
+                        }
+                    }
+                }
+                stats.inc("mt.fail_stop_at_lock_checked");
             }
             // fail-stop: a call that starts after an error was returned (to any thread) must fail
             let first_err_at = res.values().filter(|(_, ok)| !*ok).map(|(k, _)| *k).min();
